@@ -40,10 +40,33 @@ STARTS = [0.0, 1.0, 2.5]
 DTS = [1.0, 0.5, 0.25, 0.1]
 
 
+def directed_pair(adapter, a_first, k=None):
+    """run-steps(2) and run-step of ONE instance in flight together; with k: a single pre-emption at scheduling point k"""
+    sched = {"kind": "default"} if k is None else {"kind": "overtake", "k": k, "to": 1}
+    return {"property": PROPERTY, "more": None, "load_route2": "restart", "diverge": None,
+            "config": {"adapter": adapter, "model": {"template": "T1", "start": 1.0, "stop": 9.0, "dt": 1.0,
+                                                     "managers": {"smA": {"base": {}, "alt": {"constants": {"constant": 2.0}}}}}},
+            "instances": [{"timeout": {"seconds": 30},
+                           "ops": [{"op": "begin", "scenarios": ["base"], "equations": ["stock", "constant"], "settings": {}},
+                                   {"op": "step", "settings": {"smA": {"base": {"constants": {"constant": 3.0}}}}},
+                                   {"op": "pair", "a_first": a_first, "wide": True, "sched": sched,
+                                    "a": {"op": "steps", "n": 2, "settings": {"smA": {"base": {"constants": {"constant": 3.0}}}}},
+                                    "b": {"op": "step", "settings": {"smA": {"base": {"constants": {"constant": 3.0}}}}}}]}],
+            "save_route": "auto", "load_route": "restart"}
+
+
 def plan(tier, verif_seed):
+    # complete single-pre-emption sweep of a directed pair (both start orders): every point at which the request that
+    # runs first can be overtaken by the other one
+    i = 0
+    for a_first in (True, False):
+        r0 = execute(directed_pair("plain", a_first))
+        for k in range(r0.points, 0, -1):
+            yield {"i": i, "directed_pair": {"adapter": "plain", "a_first": a_first, "k": k - 1}}
+            i += 1
     n = 640 if tier == "quick" else 10**9
-    for i in range(n):
-        yield {"i": i, "seed": derive_seed(verif_seed, PROPERTY, i), "keep_sample": i < 2}
+    for j in range(n):
+        yield {"i": i + j, "seed": derive_seed(verif_seed, PROPERTY, j), "keep_sample": j < 2}
 
 
 def _sett(rng, template, scen):
@@ -59,6 +82,9 @@ def _sett(rng, template, scen):
 
 
 def generate(spec):
+    if "directed_pair" in spec:
+        dp = spec["directed_pair"]
+        return directed_pair(dp["adapter"], dp["a_first"], dp["k"])
     rng = random.Random(spec["seed"])
     template = rng.choice(["T1", "T1", "T2"])
     start = rng.choice(STARTS)
@@ -260,10 +286,12 @@ def execute(case):
                     def cb():
                         box["b"] = w.post("/%s/run-step" % iid, {"settings": o["b"]["settings"]})
                     sp = dict(o["sched"])
-                    narrow = sp["seed"] % 3 == 0
+                    narrow = (not o.get("wide")) and sp.get("seed", 1) % 3 == 0
                     sched = Scheduler(make_policy(sp), PAIR_TRACE[2:] if narrow else PAIR_TRACE, log=None)
                     with sched:
-                        rr_ = run_tasks(sched, [ca, cb])
+                        # (the task created last runs first under the default policy)
+                        rr_ = run_tasks(sched, [cb, ca] if o.get("a_first") else [ca, cb])
+                    res.points += sched.points
                     for x_ in rr_:
                         if x_ and x_[0] == "exc":
                             raise x_[1]
